@@ -67,6 +67,13 @@ pub fn roundtrip<F: Family>(p: &F::Packet, ctx: &mut Ctx) -> CaseResult {
         Err(e) => viol!("encoder output has no well-formed fixed header ({:?}): {}", e, hex_short(bytes, 64)),
     };
     ensure!(hl + rl == bytes.len(), "encoder output: header declares {} bytes, {} follow; packet {}", rl, bytes.len() - hl, fam::render(p));
+    // the packet's own type accessor names the type that is on the wire and in the decoded fixed header
+    let tn = F::packet_type_num(p);
+    ensure!(tn == bytes[0] >> 4, "get_type() of {} is type {} but the encoding starts with {:#04x}", fam::render(p), tn, bytes[0]);
+    match F::header_decode(bytes) {
+        Ok(h) => ensure!(F::header_parts(&h).0 == tn && F::header_parts(&h).4 as usize == rl, "Header::decode of the encoding gives {:?}; packet {}", h, fam::render(p)),
+        Err(e) => viol!("Header::decode of the encoding failed: {:?}; packet {}", e, fam::render(p)),
+    }
 
     // blocking
     match F::decode(bytes) {
